@@ -241,12 +241,18 @@ func (s *socket) NewDialer(addr string, options map[string]interface{}) (mangos.
 	if err != nil {
 		return nil, err
 	}
+	s.Lock()
+	reconnMinTime := s.reconnMinTime
+	reconnMaxTime := s.reconnMaxTime
+	dialAsynch := s.dialAsynch
+	maxRxSize := s.maxRxSize
+	s.Unlock()
 	d := &dialer{
 		d:             td,
 		s:             s,
-		reconnMinTime: s.reconnMinTime,
-		reconnMaxTime: s.reconnMaxTime,
-		asynch:        s.dialAsynch,
+		reconnMinTime: reconnMinTime,
+		reconnMaxTime: reconnMaxTime,
+		asynch:        dialAsynch,
 		addr:          addr,
 	}
 	for n, v := range options {
@@ -266,7 +272,7 @@ func (s *socket) NewDialer(addr string, options map[string]interface{}) (mangos.
 		}
 	}
 	if _, ok := options[mangos.OptionMaxRecvSize]; !ok {
-		err = td.SetOption(mangos.OptionMaxRecvSize, s.maxRxSize)
+		err = td.SetOption(mangos.OptionMaxRecvSize, maxRxSize)
 		if err != nil && err != mangos.ErrBadOption {
 			return nil, err
 		}
@@ -309,6 +315,9 @@ func (s *socket) NewListener(addr string, options map[string]interface{}) (mango
 	if err != nil {
 		return nil, err
 	}
+	s.Lock()
+	maxRxSize := s.maxRxSize
+	s.Unlock()
 	for n, v := range options {
 		if err = tl.SetOption(n, v); err != nil {
 			_ = tl.Close()
@@ -316,7 +325,7 @@ func (s *socket) NewListener(addr string, options map[string]interface{}) (mango
 		}
 	}
 	if _, ok := options[mangos.OptionMaxRecvSize]; !ok {
-		err = tl.SetOption(mangos.OptionMaxRecvSize, s.maxRxSize)
+		err = tl.SetOption(mangos.OptionMaxRecvSize, maxRxSize)
 		if err != nil && err != mangos.ErrBadOption {
 			return nil, err
 		}
